@@ -50,9 +50,12 @@ PropLen(t) == CASE t.c = 0 -> 4 [] t.c = 1 -> 12 [] t.c = 3 -> 1 [] t.c = 7 -> 0
 DtBasic  == {[kind |-> "dt_basic", t |-> t] : t \in Basic}
 ExpDtBasic(v) == [class |-> v.t.c, ver |-> 1, size |-> v.t.size, bits |-> v.t.bits]
 
-Tags     == {[s |-> "a", n |-> 1], [s |-> "abcdefg", n |-> 7], [s |-> "abcdefgh", n |-> 8], [s |-> "abcdefghi", n |-> 9]}
+\* a tag of more than 9 bytes is its one-byte seed repeated n times (the driver builds it and reports the seed when the decoded tag
+\* is exactly that).  The class bit field holds the padded tag length in 8 bits: 248 is the longest tag the format can hold.
+Tags     == {[s |-> "a", n |-> 1], [s |-> "abcdefg", n |-> 7], [s |-> "abcdefgh", n |-> 8], [s |-> "abcdefghi", n |-> 9],
+             [s |-> "z", n |-> 248], [s |-> "z", n |-> 249], [s |-> "z", n |-> 255], [s |-> "z", n |-> 256]}
 DtOpaque == {[kind |-> "dt_opaque", size |-> s, tag |-> t] : s \in {1, 16, 65536}, t \in Tags}
-ExpDtOpaque(v) == [class |-> 5, ver |-> 1, size |-> v.size, bits |-> Pad8(v.tag.n), tag |-> v.tag.s]
+ExpDtOpaque(v) == [class |-> 5, ver |-> 1, size |-> v.size, bits |-> Pad8(v.tag.n), tag |-> v.tag.s, taglen |-> v.tag.n]
 
 \* variable length: bits = type (0 sequence, 1 string) + 256*padding + 65536*charset
 DtVlen   == {[kind |-> "dt_vlen", bits |-> b, base |-> t] : b \in {0, 1, 65537} \cup (IF Wide THEN {257, 513} ELSE {}),
@@ -204,7 +207,7 @@ MustEncode(v) ==
     [] v.kind = "layout"    -> \A i \in DOMAIN v.cdims : v.cdims[i] # "4294967296"
     [] v.kind = "attr"      -> v.name >= 1 /\ v.name <= 65534
     [] v.kind = "link"      -> NameFits(v)
-    [] v.kind = "dt_opaque" -> TRUE
+    [] v.kind = "dt_opaque" -> Pad8(v.tag.n) <= 255
     [] v.kind = "ohdr"      -> v.ver = 1 \/ (LET RECURSIVE S(_)
                                                  S(i) == IF i = 0 THEN 0 ELSE 4 + v.msgs[i].len + S(i - 1)
                                              IN S(Len(v.msgs)) <= 255)
@@ -216,6 +219,7 @@ MustRefuse(v) ==
     [] v.kind = "layout"    -> \E i \in DOMAIN v.cdims : v.cdims[i] = "4294967296"
     [] v.kind = "attr"      -> v.name = 0 \/ v.name >= 65535      \* the size field (2 bytes) counts the terminator
     [] v.kind = "link"      -> ~NameFits(v)
+    [] v.kind = "dt_opaque" -> Pad8(v.tag.n) > 255          \* the length field of the tag has 8 bits
     [] OTHER -> FALSE
 
 =============================================================================
